@@ -46,9 +46,9 @@ Theorem C01_result_is_function_of_registrations : forall st orc g ops e n vars,
                   | PLBad => (PRGarbage, [n])
                   | PLOk ns =>
                     pool_seq (PROut [], [n])
-                      (pool_eval pool_eval_fuel (pool_spec_resolve st (pool_last_reg ops) e) pool_garbage_none true
+                      (fst (pool_eval pool_eval_fuel (pool_spec_resolve st (pool_last_reg ops) e) pool_garbage_none true
                          (pool_cset (pool_ctx_new (pool_garbage_none pool_eval_fuel) (map (fun xv => (fst xv, Some (snd xv))) vars))
-                                    b#"lastLoadedTemplate" FVPtr) ns)
+                                    b#"lastLoadedTemplate" FVPtr) ns pool_eval_gas))
                   end)).
 Proof. exact C01_result_is_function_of_registrations_proof. Qed.
 
